@@ -22,7 +22,7 @@ EXPLANATION = __doc__
 STUBS = [stubs.STUB_NOTE, "Monitor.__call__ has an empty body"]
 ASSUMPTIONS = ["(enc) graphs are constrained by the z3 predicate WF(t); (gen) shows the generator's outputs satisfy it within its bounds",
                "the access budget (2 reads per step, L*|V|+1 steps) is the unwinding assertion: exceeding it is reported as non-termination"]
-BUDGET_S = {"quick": 1500, "thorough": 10000}
+BUDGET_S = {"quick": 1500, "thorough": 1500}
 
 
 def make_loader(cfg):
